@@ -83,6 +83,18 @@ add("C03", "exploration",
     "Absence of panics/aborts is shown for the inputs tried only. Watchdog expiry is reported as inconclusive (exit 2), never as a violation. The debug-assertions/overflow-checks profile is used so that wrap-arounds surface as panics.",
     "DESIGN.md section 4/C03")
 
+add("C17", "exploration",
+    "exhaustive context x payload enumeration of byte sequences plus generated inputs, re-validating every returned str (hook assertions at each unchecked conversion)",
+    "Exploration: 18 syntactic contexts (symbols, keywords, both string syntaxes with escapes adjacent to the payload, both character syntaxes, comments) are crossed with EVERY 1- and 2-byte payload (and every 3-byte payload with a high lead byte in the thorough tier, plus structured 4-byte classes), through from_str (when the whole input is UTF-8), from_slice and from_reader, value and datum API. Every str inside a returned value is re-validated; ill-formed payloads inside tokens must be rejected, inside comments skipped, valid ones must arrive verbatim. The verif-hooks feature asserts validity right before each from_utf8_unchecked, so an ill-formed str is caught when created. The output side compares to_string_custom with to_vec_custom for all 576 printer option sets.",
+    "Undefined behaviour is detected by re-validation and assertions, not by a memory model.",
+    "DESIGN.md section 4/C17")
+
+add("C19", "exploration",
+    "exhaustive prefix enumeration of generated well-formed texts (truncation clause) and bounds checks on every error of generated malformed inputs (location clause)",
+    "Exploration: for the truncation clause every proper byte prefix of every generated single-datum layout (all token kinds, both dialects, alternative spellings) and of a fixed battery is parsed from slice, reader and (when UTF-8) str; a prefix must parse or fail with category EOF. For the location clause every error produced by the malformed-input generators, single-shot and iterated, must have line/column within the stated bounds and convert to io::Error with the documented kind.",
+    "Only the stated direction is asserted (a malformed input may be classified as EOF).",
+    "DESIGN.md section 4/C19")
+
 NOT_YET = {}
 
 def main():
